@@ -336,6 +336,7 @@ def r15i(ck, prog):
 
 def run(ck, progs):
     describe(ck)
+    ck.rule("R15j", "the writers are reached only for an msa whose rows have been rendered (status FINAL): nothing is written from ungapped residues with alnlen 0 (= R01d)")
     ck.rule("R15h", "a header line that did not fit is written again with a size larger than what the first attempt needed")
     ck.rule("R15i", "every %s conversion of a sequence name in the MSF/Clustal writers that has a width also has a precision")
     for cfg, prog in progs.items():
@@ -346,6 +347,8 @@ def run(ck, progs):
         ck.attempt(r15g, ck, prog)
         ck.attempt(r15h, ck, prog)
         ck.attempt(r15i, ck, prog)
+        from . import c01
+        ck.borrow(c01.r01d, prog, "R15j", ("R01d",))
     return ("Reaching-definition agreement inside write_msa_msf between the header's declared length, the checksum spans "
             "and the bound that terminates row emission; pairing of Name: and Check: on the same sequence index; the "
             "predicate that selects banner and Type:.")
